@@ -109,7 +109,16 @@ func runCheck(repo, verif, prop, tier string, verbose bool) int {
 	if tier == "thorough" {
 		timeout = 60
 	}
+	tD := time.Now()
 	discharge(res.obs, solveOpts{timeoutS: timeout, dir: tmp, jobs: 16, thorough: tier == "thorough"})
+	if os.Getenv("GVC_TIMING") != "" {
+		fmt.Fprintf(os.Stderr, "gvc timing: load %.1fs generate %.1fs discharge %.1fs\n", loadS, genS, time.Since(tD).Seconds())
+		for _, o := range res.obs {
+			if o.Ms > 3000 {
+				fmt.Fprintf(os.Stderr, "  %6dms %s [%s] %s\n", o.Ms, o.Name, o.Result, o.Backend)
+			}
+		}
+	}
 	if d := os.Getenv("GVC_DUMPFAIL"); d != "" {
 		for _, o := range res.obs {
 			if o.vc != nil && !o.Cover && (o.Result != "unsat" || os.Getenv("GVC_DUMPALL") != "") {
